@@ -31,25 +31,41 @@ def prepare(mode):
 
 
 def generate(rng):
+  import random as _random
   programs = {}
+  theme = rng.sample(proggen.NAME_POOL, 3) if rng.random() < 0.6 else None
   n_up = rng.choice([0, 1, 1, 2, 2, 3])
   ups = []
   for i in range(n_up):
     deps = [u for u in ups if rng.random() < 0.4]
     upstream = [(programs[d]["module"], programs[d]["exports"]) for d in deps]
     src, ex = proggen.gen_module(rng, "up%d" % i, upstream, errors=False,
-                                 size=rng.randrange(3, 9))
+                                 size=rng.randrange(3, 9), theme=theme)
     pid = "u%d" % i
     programs[pid] = {"module": "up%d" % i, "src": src, "deps": deps, "exports": ex}
     ups.append(pid)
   mains = []
+  prev = None
   for i in range(rng.randrange(2, 5)):
-    deps = [u for u in ups if rng.random() < 0.6]
+    if prev is not None and rng.random() < 0.5:
+      # a VARIANT of the previous main program: same module name, same
+      # dependencies, a common prefix, then different definitions under
+      # colliding names (what a process-global cache keyed by name would mix up)
+      deps, sub_seed, size = prev
+      fork = (rng.randrange(1, size), rng.randrange(1 << 30))
+    else:
+      deps = [u for u in ups if rng.random() < 0.6]
+      sub_seed, size, fork = rng.randrange(1 << 30), rng.randrange(4, 14), None
     upstream = [(programs[d]["module"], programs[d]["exports"]) for d in deps]
-    src, ex = proggen.gen_module(rng, "main", upstream, errors=True,
-                                 size=rng.randrange(4, 14))
+    src, ex = proggen.gen_module(_random.Random(sub_seed), "main", upstream,
+                                 errors=True, size=size, theme=theme, fork=fork)
+    if fork and rng.random() < 0.5:
+      src = proggen.drop_some_bases(rng, src)
+    prev = (deps, sub_seed, size)
     pid = "m%d" % i
     programs[pid] = {"module": "main", "src": src, "deps": deps, "exports": ex}
+    if fork:
+      programs[pid]["variant_of"] = "m%d" % (i - 1)
     mains.append(pid)
   if rng.random() < 0.4:
     cp = proggen.corpus_program(rng, os.path.abspath(os.environ.get("VERIF_REPO", "/repo")))
